@@ -514,7 +514,7 @@ def guarded(run, what, fn, *args):
     except Exception as ex:  # noqa
         import traceback
         tb = traceback.extract_tb(ex.__traceback__)
-        where = [f for f in tb if "periodictable" in f.filename]
+        where = [f for f in tb if "periodictable" in f.filename] or list(tb)
         run.violation("the real code raised %s during the %s stream" % (type(ex).__name__, what),
                       dict(stream=what, exception=repr(ex), last_input=getattr(run, "last_input", None),
                            where=["%s:%d %s" % (f.filename.rsplit("/", 1)[-1], f.lineno, f.name) for f in where[-3:]]),
